@@ -203,7 +203,9 @@ struct World
   void recycleA(int o)
   {
     for (int k = 0; k < NOWN; k++) {
-      if (k != o && k != 2 && exists[k]) {
+      // (an owner that still holds a registration: the image of an inert one would hide a
+      // constructor that leaves the storage as it found it)
+      if (k != o && k != 2 && exists[k] && !a(k).is_unregistered()) {
         std::memcpy(storeA[a_slot(o)], storeA[a_slot(k)], sizeof(OwnA));
         return;
       }
